@@ -1,6 +1,8 @@
 package verifsim
 
 import (
+	"os"
+	"strings"
 	"context"
 	"crypto/ed25519"
 	"crypto/sha256"
@@ -205,6 +207,9 @@ func gqlOn(ctx context.Context, s client.Store, req string) (data map[string]any
 		}
 	}()
 	res := s.ExecRequest(ctx, req)
+	if gqlTrace && strings.HasPrefix(req, "mutation") {
+		fmt.Fprintf(os.Stderr, "GQL %s -> %v %v\n", req, res.GQL.Data, res.GQL.Errors)
+	}
 	for _, e := range res.GQL.Errors {
 		errs = append(errs, e.Error())
 	}
@@ -265,3 +270,6 @@ func (n *SimNode) getBlock(c cid.Cid) ([]byte, error) {
 	}
 	return b.RawData(), nil
 }
+
+// gqlTrace prints every mutation to stderr (debugging aid, VERIF_GQLTRACE=1); it has no effect on the run.
+var gqlTrace = os.Getenv("VERIF_GQLTRACE") != ""
